@@ -191,7 +191,7 @@ func (pn *Image) ToJSON(encoder *jbtf.Encoder) ([]byte, error) {
 		}
 	}
 
-	if schema.DefaultValue != nil {
+	if pn.DefaultValue != nil {
 		schema.DefaultValue = &jbtf.Png{
 			Image: pn.DefaultValue,
 		}
